@@ -629,6 +629,242 @@ func init() {
 		})
 		w.Line("/-- `Namespace.GetHandler`: number of `ns.pipelines.Load` calls (+100 per other access to `ns`). -/")
 		w.Line("def tcGetHandlerLoads : Nat := %d", nsLoads+100*(nsCalls-nsLoads))
+		if err := c11KindInventory(r, w); err != nil {
+			return err
+		}
 		return nil
 	}})
+}
+
+// ---------------------------------------------------------------------------
+// Inventory of registered kinds (extension `auth11`): every `filters.Register(k)` under pkg/filters
+// is resolved to (kind name, package, build constraint, type created by CreateInstance, does that
+// type's Inherit mention the previous generation); every `supervisor.Register(&T{})` under
+// pkg/object to (T, package). A registration that cannot be resolved FAILS the extraction, so a
+// kind registered in a new way cannot escape the classification obligation of Props/C11.lean.
+
+type c11Kind struct {
+	name, pkg, tag, typ string
+	touches             bool
+}
+
+func c11BuildTag(f *ast.File) string {
+	for _, cg := range f.Comments {
+		if cg.Pos() >= f.Package {
+			break
+		}
+		for _, c := range cg.List {
+			if strings.HasPrefix(c.Text, "//go:build ") {
+				return strings.TrimSpace(strings.TrimPrefix(c.Text, "//go:build "))
+			}
+		}
+	}
+	return ""
+}
+
+func c11KindInventory(r *Repo, w *Lean) error {
+	fdirs, err := os.ReadDir(filepath.Join(r.Root, "pkg/filters"))
+	if err != nil {
+		return err
+	}
+	var kinds []c11Kind
+	for _, d := range fdirs {
+		if !d.IsDir() {
+			continue
+		}
+		dir := "pkg/filters/" + d.Name()
+		gofiles, err := c11PkgFiles(r, dir)
+		if err != nil {
+			return err
+		}
+		// package-level values and Inherit methods of the whole package
+		vals := map[string]ast.Expr{}
+		inherit := map[string]*ast.FuncDecl{}
+		var files []*ast.File
+		for _, rel := range gofiles {
+			f, err := r.File(rel)
+			if err != nil {
+				return err
+			}
+			files = append(files, f)
+			for _, dd := range f.Decls {
+				switch t := dd.(type) {
+				case *ast.GenDecl:
+					for _, sp := range t.Specs {
+						if vs, ok := sp.(*ast.ValueSpec); ok {
+							for i, n := range vs.Names {
+								if i < len(vs.Values) {
+									vals[n.Name] = vs.Values[i]
+								}
+							}
+						}
+					}
+				case *ast.FuncDecl:
+					if t.Recv != nil && len(t.Recv.List) == 1 && t.Name.Name == "Inherit" && t.Body != nil {
+						inherit[recvName(t.Recv.List[0].Type)] = t
+					}
+				}
+			}
+		}
+		for _, f := range files {
+			tag := c11BuildTag(f)
+			var ferr error
+			ast.Inspect(f, func(n ast.Node) bool {
+				ce, ok := n.(*ast.CallExpr)
+				if !ok || ferr != nil {
+					return true
+				}
+				if fun := r.Src(ce.Fun); fun != "filters.Register" {
+					if strings.HasSuffix(fun, ".Register") && strings.HasPrefix(fun, "filters") {
+						ferr = fmt.Errorf("%s: unrecognised registration %s", dir, fun)
+					}
+					return true
+				}
+				if len(ce.Args) != 1 {
+					ferr = fmt.Errorf("%s: filters.Register with %d arguments", dir, len(ce.Args))
+					return true
+				}
+				arg := ce.Args[0]
+				if id, ok := arg.(*ast.Ident); ok {
+					v, ok := vals[id.Name]
+					if !ok {
+						ferr = fmt.Errorf("%s: filters.Register(%s): no package-level value", dir, id.Name)
+						return true
+					}
+					arg = v
+				}
+				if ue, ok := arg.(*ast.UnaryExpr); ok {
+					arg = ue.X
+				}
+				cl, ok := arg.(*ast.CompositeLit)
+				if !ok {
+					ferr = fmt.Errorf("%s: filters.Register: argument is not a &filters.Kind{…} literal", dir)
+					return true
+				}
+				k := c11Kind{pkg: d.Name(), tag: tag}
+				for _, el := range cl.Elts {
+					kv, ok := el.(*ast.KeyValueExpr)
+					if !ok {
+						continue
+					}
+					switch r.Src(kv.Key) {
+					case "Name":
+						val := kv.Value
+						if id, ok := val.(*ast.Ident); ok {
+							if v, ok := vals[id.Name]; ok {
+								val = v
+							}
+						}
+						if bl, ok := val.(*ast.BasicLit); ok && bl.Kind == token.STRING {
+							k.name = strings.Trim(bl.Value, "\"`")
+						}
+					case "CreateInstance":
+						ast.Inspect(kv.Value, func(x ast.Node) bool {
+							if c, ok := x.(*ast.CompositeLit); ok && k.typ == "" {
+								k.typ = c11TypeName(c.Type)
+							}
+							return true
+						})
+					}
+				}
+				fd := inherit[k.typ]
+				if k.name == "" || k.typ == "" || fd == nil {
+					ferr = fmt.Errorf("%s: filters.Register: cannot resolve kind name / created type / its Inherit (name %q type %q)", dir, k.name, k.typ)
+					return true
+				}
+				if fd.Type.Params != nil && len(fd.Type.Params.List) == 1 && len(fd.Type.Params.List[0].Names) == 1 {
+					if param := fd.Type.Params.List[0].Names[0].Name; param != "_" {
+						ast.Inspect(fd.Body, func(x ast.Node) bool {
+							if id, ok := x.(*ast.Ident); ok && id.Name == param {
+								k.touches = true
+							}
+							return true
+						})
+					}
+				} else {
+					ferr = fmt.Errorf("%s: %s.Inherit: unexpected parameter list", dir, k.typ)
+				}
+				kinds = append(kinds, k)
+				return true
+			})
+			if ferr != nil {
+				return ferr
+			}
+		}
+	}
+	if len(kinds) < 10 {
+		return fmt.Errorf("only %d registered filter kinds found", len(kinds))
+	}
+	sort.Slice(kinds, func(i, j int) bool { return kinds[i].name < kinds[j].name })
+	var names, pkgs, touch, tags []string
+	for _, k := range kinds {
+		names = append(names, k.name)
+		pkgs = append(pkgs, fmt.Sprintf("(%s, %s)", Str(k.name), Str(k.pkg+"."+k.typ)))
+		touch = append(touch, fmt.Sprintf("(%s, %s)", Str(k.name), Bool(k.touches)))
+		if k.tag != "" {
+			tags = append(tags, fmt.Sprintf("(%s, %s)", Str(k.name), Str(k.tag)))
+		}
+	}
+	w.Line("/-- names of all filter kinds registered with `filters.Register` under pkg/filters (sorted). -/")
+	w.Line("def filterKinds : List String := %s", StrList(names))
+	w.Line("/-- kind name ↦ package.Type created by its `CreateInstance`. -/")
+	w.Line("def filterKindImpl : List (String × String) := [%s]", strings.Join(pkgs, ", "))
+	w.Line("/-- kind name ↦ does the body of that type's `Inherit` mention its previous-generation parameter? -/")
+	w.Line("def filterKindTouchesPrev : List (String × Bool) := [%s]", strings.Join(touch, ", "))
+	w.Line("/-- kinds whose registering file carries a `//go:build` constraint (not part of a default build). -/")
+	w.Line("def filterKindBuildTag : List (String × String) := [%s]", strings.Join(tags, ", "))
+
+	// ---- object kinds
+	odirs, err := os.ReadDir(filepath.Join(r.Root, "pkg/object"))
+	if err != nil {
+		return err
+	}
+	var objs []string
+	for _, d := range odirs {
+		if !d.IsDir() {
+			continue
+		}
+		dir := "pkg/object/" + d.Name()
+		gofiles, err := c11PkgFiles(r, dir)
+		if err != nil {
+			return err
+		}
+		for _, rel := range gofiles {
+			f, err := r.File(rel)
+			if err != nil {
+				return err
+			}
+			var ferr error
+			ast.Inspect(f, func(n ast.Node) bool {
+				ce, ok := n.(*ast.CallExpr)
+				if !ok || r.Src(ce.Fun) != "supervisor.Register" {
+					return true
+				}
+				tn := ""
+				if len(ce.Args) == 1 {
+					if ue, ok := ce.Args[0].(*ast.UnaryExpr); ok {
+						if cl, ok := ue.X.(*ast.CompositeLit); ok {
+							tn = c11TypeName(cl.Type)
+						}
+					}
+				}
+				if tn == "" {
+					ferr = fmt.Errorf("%s: supervisor.Register: argument is not &T{}", dir)
+					return true
+				}
+				objs = append(objs, tn)
+				return true
+			})
+			if ferr != nil {
+				return ferr
+			}
+		}
+	}
+	if len(objs) < 10 {
+		return fmt.Errorf("only %d registered object kinds found", len(objs))
+	}
+	sort.Strings(objs)
+	w.Line("/-- types registered with `supervisor.Register(&T{})` under pkg/object (sorted). -/")
+	w.Line("def objectKinds : List String := %s", StrList(objs))
+	return nil
 }
